@@ -914,9 +914,6 @@ def compare_rendering(res, case, idx, he, rspec, want, got):
                                        shape(he["style"], he["format"])))
         return
     # the reference itself cannot render this record
-    if want[1] == "OverflowError":
-        res.count("unjudged_renderings")
-        return
     if want[2] == "missing-field" and arb:
         res.count("unjudged_renderings")        # record lacks the extra field
         return
